@@ -153,6 +153,18 @@ def gen_cases(summary, rng, tier, classes, exact, ncases, suspects=()):
                 objs = [(cn, a)] + ([(simple, {})] if simple else []) + [(cn, dict(a))] + ([(simple, {})] if simple else [])
                 for cs in ((4, 7) if tier == 'quick' else (1, 2, 3, 4, 5, 7, 16, 43)):
                     cases.append(Case(rng.choice([0, 1]), cs, rng.random() < 0.5, objs))
+                # ... and as the very last object of the file (nothing behind it that a decoder reading too far could borrow)
+                cases.append(Case(rng.choice([0, 1]), rng.choice([7, 64, 4096]), rng.random() < 0.5, objs[:3] if simple else objs[:1]))
+    # payload lengths around the capacity of 6-, 7- and 8-bit length fields, one container member at a time, everything else default
+    for cn in classes:
+        c = g.cls[cn]
+        for fi, f in enumerate(c['fields']):
+            if f['kind'][0] != 'vec':
+                continue
+            ew = f['kind'][1]
+            for ln in ((64, 65, 255, 256) if tier == 'quick' else (1, 63, 64, 65, 127, 128, 255, 256, 257)):
+                objs = [(cn, {fi: bytes(rng.randrange(1, 256) for _ in range(ln * ew))})] + ([(simple, {})] if simple else [])
+                cases.append(Case(rng.choice([0, 1]), rng.choice([64, 4096]), False, objs))
     if tier == 'thorough':
         # container larger than the internal buffer / payloads of several containers
         for cn in ('AppText', 'EthernetFrame'):
